@@ -2,6 +2,7 @@
 """Regenerates MANIFEST.json from the table below (keeps it valid at all times)."""
 import json, os
 HERE = os.path.dirname(os.path.abspath(__file__))
+LOGIX_NOTE = "Trusted: Coq kernel; extraction (ExtrOcamlBasic) + OCaml driver; the hand-written model Model/Logix.v (exec/produce) is tied to /repo only by the differential run: same configurations and request histories through the in-process Message Router object and through the extracted model, compared on reply bytes and a hash of the whole tag-store image after every request, full image at the end.  Scalar CIP types only; requests are dotdicts (wire parsing is C01's business)."
 CLAIMED = {
  'C19': dict(
    text='Coq theorems (Properties/C19.v, closed under the global context) over an executable model of shatter/merge: for every '
@@ -13,6 +14,31 @@ CLAIMED = {
         'Python outside the explored inputs only by the argument that both are the same 20-line loop; sorted() = lexicographic order.',
    technique='Coq proof (induction over the sorted sweep with a chain/tiles invariant) + model/implementation correspondence',
    design='6 C19'),
+
+ 'C03': dict(
+   text='Coq theorems (Properties/C03.v) over the executable tag-store model: every request changes exactly the elements of its accepted write window to exactly '
+        'the written values (pointwise frame theorem), over any history an element holds the value of the last accepted covering write or its initial value, a '
+        'successful read returns the current window with the tag\'s own type and status 0/6 as the window reaches the requested end, store shape is invariant, '
+        'symbolic and numeric views coincide, pack/unpack round trip.  Tie: correspondence on random configurations x histories; an independent array spec '
+        'judges the implementation directly.',
+   note=LOGIX_NOTE, technique='Coq proof (pointwise effect + induction over histories) + model/implementation correspondence', design='6 C03'),
+ 'C04': dict(
+   text='Coq theorems (Properties/C04.v): for every tag, start, count and byte budget the Read Tag Fragmented walk (offset advanced by bytes received) terminates in '
+        'ceil(n/ceil(budget/size)) fragments with statuses 06..06 00, each of 1..ceil(budget/size) whole elements, concatenating to exactly the requested elements; '
+        'Write Tag Fragmented pieces whose offsets tile a range store exactly the concatenation there and nothing else.  Tie: correspondence on an exhaustive grid of '
+        'type x length x budget x (start,count) plus an adaptive client walk on the implementation.',
+   note=LOGIX_NOTE, technique='Coq proof (induction on the fragment walk over the reply_elements arithmetic) + correspondence', design='6 C04'),
+ 'C05': dict(
+   text='Coq theorems (Properties/C05.v): every refused request leaves the store unchanged; writes are refused exactly with 0x05/[0], 0xFF/[0x2107], 0xFF/[0x2105] for '
+        'unknown tag, unacceptable type/value, window outside the tag; Set Attribute Single replaces the whole attribute or fails; the invariant "every stored value '
+        'packs in its tag\'s type" is preserved by every request and implies every reply can be produced.  The behaviour of the originally pinned tree is refuted by '
+        'two computed witnesses (UDINT 0xFFFFFFFF into DINT; Set Attribute Single @0x77/1/1 overwriting the first tag) - both repaired by fix: commits.',
+   note=LOGIX_NOTE, technique='Coq proof (case analysis of exec_write/exec_set, invariant preservation) + refutation witnesses by vm_compute + correspondence', design='6 C05'),
+ 'C07': dict(
+   text='Coq theorems (Properties/C07.v): on a well-formed readable store a Multiple Service Packet yields exactly the replies and final store of its members executed '
+        'one by one in order; a refused member changes nothing and leaves its neighbours\' replies as if absent; bundle reply bytes = header, count, offsets, members, '
+        'offset i = 2+2N+sum of earlier lengths.  Tie: correspondence on histories of bundles; oracle = same members bundled vs singly on two identical simulators.',
+   note=LOGIX_NOTE, technique='Coq proof (induction over the member list with readable/well-formed invariants) + correspondence', design='6 C07'),
 }
 PENDING = {}
 ALL = ['C%02d' % i for i in range(1, 21)]
